@@ -370,11 +370,12 @@ class MultiSweep(Sweep):
         return MultiSweep(*filtered_sweeps)
 
     def __add__(self, other: Sweep) -> MultiSweep:
-        """Add another sweep to this MultiSweep."""
+        """Return a new MultiSweep with the sweeps of this one followed by `other`."""
         if not isinstance(other, Sweep):  # pragma: no cover
             msg = "Other object must be a `Sweep` or a `MultiSweep` instance."
             raise TypeError(msg)
-        return self.combine(other)
+        # `combine` works in place; `+` must leave its left operand unchanged
+        return MultiSweep(*self.sweeps).combine(other)
 
     def combine(self, other: Sweep) -> MultiSweep:
         """Add another sweep to this `MultiSweep`."""
